@@ -10,7 +10,7 @@ for ID in $IDS; do
   P=${ID%%-*}
   git -C /repo apply /verif/seeded/$ID/patch.diff || { echo "$ID: patch does not apply"; FAIL=1; continue; }
   ./check $P quick > build/selfown_${ID}.log 2>&1; RC=$?
-  git -C /repo checkout -- .
+  git -C /repo checkout -- . && git -C /repo clean -fdq rust
   if [ $RC -eq 0 ] || ! grep -q "^VIOLATION property=$P" build/selfown_${ID}.log; then echo "$ID: NOT reported by $P"; FAIL=1;
   else echo "$ID: reported by $P ($(grep -c '^VIOLATION' build/selfown_${ID}.log) lines$(grep -q no-failing-input-found build/selfown_${ID}.log && echo ', no-failing-input-found'))"; fi
 done
